@@ -1771,6 +1771,25 @@ func runnerState(repo string) (string, error) {
 	if stateVar == "" || rrVar == "" || lit == nil {
 		return "", fmt.Errorf("newRulesRunner: `*rr = rulesRunner{...}` over ctx.State.object not found")
 	}
+	// the matcher states taken over from the RunnerState get the types.Info of THIS run: an unconditional top-level
+	// `<alias>.Types = ctx.Types` for each of them
+	var typesRows []string
+	for _, field := range []string{"gogrepState", "gogrepSubState"} {
+		al := ""
+		for a, f := range alias {
+			if f == field {
+				al = a
+			}
+		}
+		set := false
+		for _, st := range nr.Body.List {
+			if al != "" && wkSrc(fset, st) == al+".Types = ctx.Types" {
+				set = true
+			}
+		}
+		typesRows = append(typesRows, fmt.Sprintf("(%q%%string, %v)", field, set))
+	}
+	fmt.Fprintf(&sb, "Definition gen_matcher_types_set_per_run : list (string * bool) := [%s].\n", strings.Join(typesRows, "; "))
 	fmt.Fprintf(&sb, "Definition gen_state_reset_when_reused : bool := %v.\n", resetOnReuse)
 	classify := func(e ast.Expr) string {
 		t := wkSrc(fset, e)
